@@ -3,10 +3,13 @@
 package contracts
 
 import (
+	"encoding/json"
+
 	appchainMgr "github.com/meshplus/bitxhub-core/appchain-mgr"
 	"github.com/meshplus/bitxhub-core/governance"
 	nodemgr "github.com/meshplus/bitxhub-core/node-mgr"
 	service_mgr "github.com/meshplus/bitxhub-core/service-mgr"
+	"github.com/meshplus/bitxhub-model/pb"
 	zz "github.com/meshplus/bitxhub/internal/zzverif"
 )
 
@@ -119,4 +122,59 @@ func ZZH_C16_fsm_role() {
 	var post Role
 	w.getObj(zzRoleAddr, RoleKey(id), &post)
 	zzLifecycleStep("role", pre, last, ev, ok, post.Status)
+}
+
+// ZZH_C16_service_manage: the governance contract concludes a service proposal through the
+// real ServiceManager.Manage (real AppchainManager, InterchainManager, Governance behind
+// CrossInvoke). The owning appchain's status is symbolic: it may have been frozen / logged out
+// / put under update while the service proposal was open. Afterwards the stored service - and
+// the copy announced to the executor's cache - is usable for interchange only if the appchain is
+// available too: an approved registration under an unavailable chain ends paused.
+func ZZH_C16_service_manage() {
+	w, cs := zzFullWorld()
+	w.audit = zz.Choice("audit", 2) == 1
+	chainStatus := []governance.GovernanceStatus{governance.GovernanceAvailable, governance.GovernanceFrozen, governance.GovernanceUpdating,
+		governance.GovernanceFreezing, governance.GovernanceLogouting, governance.GovernanceForbidden}[zz.Choice("chainStatus", 6)]
+	w.putObj(zzAppchainAddr, appchainMgr.AppchainKey("chA"), appchainMgr.Appchain{ID: "chA", ChainName: "chA", ChainType: "fabric", Status: chainStatus})
+	chain := appchainMgr.Appchain{Status: chainStatus}
+	id := "chA:late"
+	var ev governance.EventType
+	var pre, last governance.GovernanceStatus
+	switch zz.Choice("operation", 2) {
+	case 0:
+		ev, pre, last = governance.EventRegister, governance.GovernanceRegisting, governance.GovernanceUnavailable
+	default:
+		ev, pre, last = governance.EventLogout, governance.GovernanceLogouting, governance.GovernanceAvailable
+	}
+	w.putObj(zzServiceAddr, service_mgr.ServiceKey(id), service_mgr.Service{ChainID: "chA", ServiceID: "late", Name: "late", Type: service_mgr.ServiceCallContract,
+		Ordered: true, Permission: map[string]struct{}{}, Status: pre})
+	result := []string{string(APPROVED), string(REJECTED)}[zz.Choice("result", 2)]
+	_, err := zzInvoke(w, cs[zzServiceAddr], zzServiceAddr, zzGovAddr, "Manage",
+		[]*pb.Arg{pb.String(string(ev)), pb.String(result), pb.String(string(last)), pb.String(id), pb.Bytes(nil)})
+	zz.Cover("C16.manage.done", err == nil)
+	if err != nil {
+		return
+	}
+	var post service_mgr.Service
+	found := w.getObj(zzServiceAddr, service_mgr.ServiceKey(id), &post)
+	zz.Assert("C16.manage.service-stored", found)
+	zz.Cover("C16.manage.ends-available", post.IsAvailable())
+	zz.Cover("C16.manage.ends-paused", post.Status == governance.GovernancePause)
+	zz.Assert("C16.manage.usable-only-under-available-chain", !post.IsAvailable() || chain.IsAvailable())
+	if ev == governance.EventRegister && result == string(APPROVED) {
+		want := governance.GovernanceAvailable
+		if !chain.IsAvailable() {
+			want = governance.GovernancePause
+		}
+		zz.Assert("C16.manage.approved-registration-status", post.Status == want)
+	}
+	// the announced copy (what a running node caches) says the same as the stored one
+	for _, e := range w.events {
+		if e.typ == pb.Event_SERVICE {
+			s := &service_mgr.Service{}
+			if json.Unmarshal(e.data, s) == nil && s.ChainID == "chA" && s.ServiceID == "late" {
+				zz.Assert("C16.manage.announced-equals-stored", s.Status == post.Status)
+			}
+		}
+	}
 }
